@@ -203,6 +203,37 @@ class ProbeEngine(object):
         w.ops[-1] += " -> %d chips" % len(keys)
         w.ops_completed += 1
 
+    def machine_meaning(self, mach):
+        """What a Machine says, independently of how it says it."""
+        return (mach.width, mach.height,
+                {xy: dict(mach[xy]) for xy in mach},
+                {(x, y, int(l)) for (x, y) in mach for l in self.Links
+                 if (x, y, l) in mach})
+
+    def op_get_machine(self):
+        """The deprecated one-call form: the same model as build_machine on a
+        fresh description (only judged when nothing can get lost)."""
+        w, c, t = self.w, self.c, self.t
+        kw = [{}, {}, {"default_num_cores": 18},
+              {"default_num_cores": 1 + t.draw(18)}][t.draw(4)]
+        w.trace.ev("op", "get_machine")
+        w.ops.append("get_machine(%s)" % ", ".join(
+            "%s=%r" % kv for kv in sorted(kw.items())))
+        w.probe("deprecated_get_machine")
+        status, mach = rigcall(w, self.allowed(), c.mc.get_machine, **kw)
+        if status == "exc":
+            return self.failed("get_machine", mach)
+        status, si = rigcall(w, self.allowed(), c.mc.get_system_info)
+        if status == "exc":
+            return self.failed("get_system_info", si)
+        if self.machine_meaning(mach) != self.machine_meaning(
+                self.parutils.build_machine(si)):
+            w.violate("BM", "get_machine() describes another machine than "
+                      "build_machine(get_system_info())",
+                      kind="get-machine-differs")
+        w.ops[-1] += " -> ok"
+        w.ops_completed += 1
+
     def check_helpers(self, si):
         w = self.w
         Links = self.Links
@@ -628,6 +659,8 @@ class ProbeEngine(object):
             c.heal()
             t.begin_tail()
             self.op_system_info(heal=True)
+            if t.draw(3) == 0:
+                self.op_get_machine()
         finally:
             c.close()
         return {"machine": "%dx%d" % (m.width, m.height)}
